@@ -973,6 +973,23 @@ func (g *TGen) InjectFault(s *genSchema) *SchemaFault {
 				return &SchemaFault{"NoDunder", "directive named __dir", []string{"@__dir"}}
 			}
 		},
+		func() *SchemaFault { // an extension of the wrong kind, right after an extension of the right kind of the same type
+			t := pickDef("OBJECT", "INTERFACE", "INPUT_OBJECT")
+			if t == nil || t.Ext {
+				return nil
+			}
+			wrong := map[string]string{"OBJECT": "INTERFACE", "INTERFACE": "OBJECT", "INPUT_OBJECT": "OBJECT"}[t.Kind]
+			ft := TNamed("Int", false)
+			mk := func(kind, field string) ATypeDef {
+				return ATypeDef{Kind: kind, Name: t.Name, Ext: true, Fields: []AFieldDef{{Name: field, Type: ft, Args: []AArgDef{}, Dirs: []ADirUse{}}}, Ifaces: []string{}, Members: []string{}, Values: []AEnumVal{}, Dirs: []ADirUse{}}
+			}
+			name := t.Name
+			if g.R.Intn(3) != 0 {
+				d.Defs = append(d.Defs, mk(t.Kind, "rightKindExtra"))
+			}
+			d.Defs = append(d.Defs, mk(wrong, "wrongKindExtra"))
+			return &SchemaFault{"ExtensionKinds", "extension of " + name + " with the keyword of another kind", []string{name}}
+		},
 		func() *SchemaFault { // the violation sits in an extension of a BUILT-IN type (merged into the prelude's definition)
 			ext := func(kind, name string) ATypeDef {
 				return ATypeDef{Kind: kind, Name: name, Ext: true, Fields: []AFieldDef{}, Ifaces: []string{}, Members: []string{}, Values: []AEnumVal{}, Dirs: []ADirUse{}}
